@@ -21,6 +21,8 @@ import (
 // stack at the same time; each must observe exactly what it would observe
 // alone.  Built with -race by the driver: a race report with rend frames is a
 // violation (collected from the GORACE log by the driver).
+var c14Case int64
+
 func TestC14(t *testing.T) {
 	rec := evid.For("C14")
 	shard, _ := evid.Shard()
@@ -30,7 +32,7 @@ func TestC14(t *testing.T) {
 	rapid.Check(t, func(t *rapid.T) {
 		shape := rapid.SampledFrom([]string{"l1only", "l1l2", "l1l2+batch"}).Draw(t, "shape")
 		cfg := stack.Config{Shape: shape, Lock: rapid.SampledFrom([]string{"nolock", "lock1r", "lockNr"}).Draw(t, "lock"),
-			L1: rapid.SampledFrom([]string{"std", "chunked", "batched"}).Draw(t, "l1"), L2: "-"}
+			L1: rapid.SampledFrom([]string{"std", "std", "chunked", "chunked", "batched", "batched", "inmem"}).Draw(t, "l1"), L2: "-"}
 		if shape != "l1only" {
 			cfg.L2 = "std"
 		}
@@ -49,6 +51,11 @@ func TestC14(t *testing.T) {
 		now := nowUnix()
 		for ci := range plans {
 			keys := []string{fmt.Sprintf("c%d-a", ci), fmt.Sprintf("c%d-b", ci)}
+			if cfg.L1 == "inmem" {
+				// the in-memory backend is one map for the whole process and cannot be emptied: fresh names per case
+				n := atomic.AddInt64(&c14Case, 1)
+				keys = []string{fmt.Sprintf("m%d-c%d-a", n, ci), fmt.Sprintf("m%d-c%d-b", n, ci)}
+			}
 			opts := cmdGenOpts{Binary: binary, Keys: keys, TwoPorts: false, NoExpiry: true, MaxGetLen: 3, GetE: cfg.Shape == "l1only" && cfg.L1 != "chunked"}
 			for s := 0; s < steps; s++ {
 				c := genCmd(t, opts, now)
